@@ -295,7 +295,9 @@ Section Frames.
     | MWoken => ok s (goto MCwLoad) ch 3
     | MWait j pc held => step_wait s th j pc held r ch
     | MCtsWait dtor =>
-        if pout s =? 0 then
+        (* ConcurrentTaskSet::wait reads outstandingTaskCount_ (= pout - gx: a skipped generator task is no longer counted by the
+           task set while its functor, with the CompletionGuard, is being destroyed) *)
+        if pout s - gx s =? 0 then
           if dtor then ok (add_log (w_done s true) (ev t 9 (-1) dummy)) (w_stack th r) ch 4
           else
             let s1 := match exc s with
